@@ -518,7 +518,8 @@ func (p *prover) cleanBetween(a, b ssa.Instruction, key string) bool {
 				}
 			}
 		}
-		if in.Block() == b.Block() && idxOf(in) < idxOf(b) || canReach(p.fn, in, b, cut{}) {
+		// (a dominates b: a path from the write to b that passes a again re-executes the load there, and is harmless)
+		if in.Block() == b.Block() && idxOf(in) < idxOf(b) || canReach(p.fn, in, b, cut{instr: func(x ssa.Instruction) bool { return x == a }}) {
 			clean = false
 			return false
 		}
